@@ -301,6 +301,11 @@ func (vc *VC) binop(fr *frame, st *State, in *ssa.BinOp) Value {
 		case token.ADD:
 			vc.declareOnce("strcat", "(declare-fun strcat (Int Int) Int)\n(assert (forall ((a! Int) (b! Int)) (! (= (strlen (strcat a! b!)) (+ (strlen a!) (strlen b!))) :pattern ((strcat a! b!)))))")
 			vc.strLen(Zero)
+			if la, oka := vc.litOf(x); oka {
+				if lb, okb := vc.litOf(y); okb {
+					return vc.strLit(la + lb)
+				}
+			}
 			return app(SInt, "strcat", x, y)
 		case token.LSS, token.LEQ, token.GTR, token.GEQ:
 			vc.declareOnce("strlt", "(declare-fun strlt (Int Int) Bool)")
